@@ -3,7 +3,7 @@ import math
 
 from .. import taps
 from ..core import canon_hash
-from ..direct import DirectRun, gen_history
+from ..direct import DirectRun, gen_deep_cancel_history, gen_history
 from ..tracker import BookTracker
 
 RULE = (
@@ -33,6 +33,10 @@ def budget(tier):
 
 
 def gen_case(rng, tier, idx):
+    if idx % 12 == 7:
+        c = gen_deep_cancel_history(rng, tier)
+        c["drive"] = "direct"
+        return c
     if idx % 6 == 5:
         from ..runnerdrive import gen_runner_case
 
@@ -248,6 +252,10 @@ class C08Monitor(BookTracker):
             sv = sum(ref.vol[: t + 1])
             evwap = (sum(ref.turn[: t + 1]) / sv) if sv else float("nan")
             chk("get_vwap", mkt.get_vwap(), evwap, tol=True)
+            if t >= 1:
+                tt = t - 1 if t < 3 or (self.n_events % 3) else max(0, t - 2 - (self.n_events % 5))
+                svp = sum(ref.vol[: tt + 1])
+                chk("get_vwap(past)", mkt.get_vwap(tt), (sum(ref.turn[: tt + 1]) / svp) if svp else float("nan"), tol=True)
             if full:
                 # series form, all times up to now
                 chk("get_market_prices", mkt.get_market_prices(), ref.mp[: t + 1])
